@@ -185,6 +185,8 @@ def gen_cfg(rng, thorough, force=None):
         bw = [None, 0.7, 2.5][int(rng.integers(3))]
         if rng.random() < 0.5:
             direction = rng.normal(size=(nd, dim)) * float(rng.choice([1.0, 7.3, 1e-3]))
+            if rng.random() < 0.08:        # boundary stream: zero-length / numerically zero direction -> ValueError
+                direction[int(rng.integers(nd))] *= float(rng.choice([0.0, 1e-10]))
         else:
             nd = 1 if dim == 3 and rng.random() < 0.5 else nd
             angles = rng.uniform(-np.pi, np.pi, size=(nd, dim - 1))
@@ -523,11 +525,11 @@ def probes(ctx, rng, gs, reps, thorough):
                            dict(base, m2=arr_desc(m2)), exact=True)
                 if not m1.all():
                     ctx.count(("mixed", dim, n, nf, est, bins), hist=hist)
-                    B = P.ve(tuple(pos), np.ma.array(sel(fmix), mask=sel(m2)), base, bin_edges=be, estimator=est, no_data=nd, mask=m1)
                     miss = m2 | m3 | m4 | m1[None, :]
                     fall = f.copy(); fall[miss] = np.nan
                     keep = ~np.all(miss, axis=0)
-                    if keep.any():
+                    if keep.any():      # (everything missing + default bins: ValueError from standard_bins, out of scope)
+                        B = P.ve(tuple(pos), np.ma.array(sel(fmix), mask=sel(m2)), base, bin_edges=be, estimator=est, no_data=nd, mask=m1)
                         A3 = P.ve(tuple(pos[:, keep]), sel(fall[:, keep]), base, bin_edges=be, estimator=est)
                         P.same("union of mask argument, field mask, NaN and no_data", "missing:union", A3, B,
                                dict(base, m1=arr_desc(m1), m2=arr_desc(m2), m3=arr_desc(m3), m4=arr_desc(m4), no_data=nd), exact=True)
